@@ -123,15 +123,51 @@ def r2(db, rep):
         return
     for i, s in enumerate(stores):
         newv = facts.expr_str(s["c"][1])
-        cl = [n for n in facts.fn_nodes(f) if n["k"] == "CXXMemberCallExpr" and n.get("cname") == "cleanup_sacked_intervals"
-              and len(cfg.args(n)) == 2 and facts.expr_str(cfg.args(n)[0]) == "ack_number_" and facts.expr_str(cfg.args(n)[1]) == newv]
+        # the cleanup, by effect: every piece of AckedRange(old ACK, new ACK) is erased from the interval set - in a member
+        # called with (ack_number_, <new value>), or by the same loop written in place
+        cl = []
+        for n in facts.fn_nodes(f):
+            if n["k"] == "CXXMemberCallExpr" and n.get("callee") and len(cfg.args(n)) == 2 and \
+                    facts.expr_str(cfg.args(n)[0]).replace("this->", "") == "ack_number_" and facts.expr_str(cfg.args(n)[1]) == newv:
+                h = db.fn(n["callee"])
+                if h is not None and h.get("body") and h.get("rec") == f.get("rec") and len(h["params"]) == 2 and \
+                        erase_loop(h, h["params"][0]["name"], h["params"][1]["name"]) is not None:
+                    cl.append(n)
+        lp = erase_loop(f, "ack_number_", newv)
+        if lp is not None:
+            cl.append(lp)
         key = "process_packet:advance#%d" % i
         if cl and all(g.before_on_all_paths(g.pos(c), g.pos(s)) for c in cl[:1]):
-            rep.ok("R2-forget", key, facts.loc(f, s), "preceded on every path by cleanup_sacked_intervals(ack_number_, %s)" % newv)
+            rep.ok("R2-forget", key, facts.loc(f, s), "preceded on every path by the erasure of every piece of AckedRange(ack_number_, %s)" % newv)
         else:
             rep.violation("R2-forget", key, facts.loc(f, s),
                           "the cumulative ACK moves to %s without cleanup_sacked_intervals(old, new) first: SACKed ranges now below the ACK "
                           "stay in the interval set" % newv)
+
+
+def erase_loop(h, a_txt, b_txt):
+    """condition node of `AckedRange r(a, b); while (r.has_next()) acked_intervals_.erase(r.next());` in h, or None"""
+    for d in facts.fn_nodes(h):
+        if d["k"] != "VarDecl" or not d.get("c") or "AckedRange" not in ((facts.tyi(h, d.get("t")) or {}).get("name") or ""):
+            continue
+        ce = facts.strip_all(d["c"][0])
+        args = [facts.expr_str(x).replace("this->", "") for x in ce.get("c", []) if x is not None]
+        if args != [a_txt, b_txt]:
+            continue
+        for w in facts.fn_nodes(h):
+            if w["k"] != "WhileStmt":
+                continue
+            real = [x for x in w["c"] if x is not None]
+            c, body = real[0], real[-1]
+            if not any(x["k"] == "CXXMemberCallExpr" and x.get("cname") == "has_next" and
+                       any(y["k"] == "DeclRefExpr" and y.get("var") == d["var"] for y in facts.walk(x)) for x in facts.walk(c)):
+                continue
+            for e in facts.walk(body):
+                if e["k"] == "CXXMemberCallExpr" and e.get("cname") == "erase" and "acked_intervals_" in facts.expr_str(e["c"][0]) and \
+                        any(x["k"] == "CXXMemberCallExpr" and x.get("cname") == "next" and
+                            any(y["k"] == "DeclRefExpr" and y.get("var") == d["var"] for y in facts.walk(x)) for x in facts.walk(e)):
+                    return c
+    return None
 
 
 def piece_loop(db):
